@@ -289,7 +289,7 @@ func join(pieces [][]byte) []byte {
 // key(64) || garbage(g) || terminator || decoys || version packet. The decoy
 // plaintexts are whatever the receiver decrypted (their lengths must be the
 // requested ones); the ciphertext must then be the reference sender's.
-func checkBtcdHandshakeStream(t *rapid.T, stream []byte, g int, secret [32]byte, btcdInitiating bool, magic [4]byte,
+func checkBtcdHandshakeStream(t fataler, stream []byte, g int, secret [32]byte, btcdInitiating bool, magic [4]byte,
 	decoyLens []int) (recvSide, shadow *bip324.Session) {
 
 	if len(stream) < 64+g {
@@ -333,7 +333,7 @@ func checkBtcdHandshakeStream(t *rapid.T, stream []byte, g int, secret [32]byte,
 	return recvSide, shadow
 }
 
-func runInterop(t *rapid.T, c *interopCase) {
+func runInterop(t fataler, c *interopCase) {
 	magic := bip324.Magic(c.net)
 	w := newWire(c.chunks)
 	bt := v2transport.NewPeer()
@@ -474,6 +474,22 @@ func head(b []byte) []byte {
 		return b[:48]
 	}
 	return b
+}
+
+// TestRegressGarbage4095 replays the shrunk failing case of finding F1 (the
+// peer sends the legal maximum of 4095 garbage bytes) in both roles, without
+// any generator: it passes once the defect is repaired, prints KNOWN-FINDING
+// while it is listed, and fails otherwise.
+func TestRegressGarbage4095(t *testing.T) {
+	calibrate(t)
+	for _, init := range []bool{true, false} {
+		for _, g := range []int{4094, 4095} {
+			c := &interopCase{btcdInit: init, net: 0xd9b4bef9, gB: 0, gM: g, key: poolKey(4), seed: 1,
+				toModel: []pkt{{size: 1}}, toBtcd: []pkt{{size: 1}}}
+			c.record()
+			runInterop(t, c)
+		}
+	}
 }
 
 func TestInterop(t *testing.T) {
